@@ -20,7 +20,7 @@ import sys
 from .. import mon, mcwrap, gen, reflang, mcwork
 from ..mon import LOG
 from ..neutral import (show, build, lang, tree_of, module_set, CLS, OPS,
-                       NeutralError)
+                       NeutralError, count_ops)
 
 PROP = 'C08'
 LANGS = ('PL', 'CTL', 'LTL', 'CTLS')
@@ -362,12 +362,22 @@ def offer_to_checkers(obj, i):
     if _K[0] is None:
         _K[0] = Kripke(R=[(0, 1), (1, 1), (1, 0)], L={0: {'p'}, 1: {'q'}})
         _nonK.extend([DiGraph(E=[(0, 0)]), None, {'S': [0]}, 'K', 42])
+    # the LTL tableau is exponential in the temporal operators: formulas that
+    # the LTL / CTL* checkers would *accept* are only offered when small
+    # (rejections are immediate whatever the size)
+    try:
+        nt = count_ops(tree_of(obj), ('X', 'F', 'G', 'U', 'R'))
+    except Exception:
+        nt = 0
     for L in (CTL, LTL, CTLS):
+        if L is not CTL and nt > 3:
+            LOG.counters['c08.mc_skipped_large'] += 1
+            continue
         try:
             L.modelcheck(_K[0], obj)
         except Exception:
             pass
-    if i % 40 == 0:
+    if i % 40 == 0 and nt <= 3:
         for L in (CTL, LTL, CTLS):
             try:
                 L.modelcheck(_nonK[(i // 40) % len(_nonK)], obj)
